@@ -60,7 +60,9 @@ impl FromStr for Class {
     type Err = &'static str;
 
     fn from_str(text: &str) -> Result<Self, Self::Err> {
-        match Caseless(text) {
+        // NOTE: patterns are matched structurally (not through
+        // Caseless's PartialEq), so the text is upper-cased first.
+        match Caseless(&text.to_ascii_uppercase()) {
             Caseless("IN") => Ok(Self::IN),
             Caseless("CH") => Ok(Self::CH),
             Caseless("HS") => Ok(Self::HS),
